@@ -18,7 +18,7 @@ import ast, itertools
 from dataclasses import dataclass, field
 from sa.model import Model, Func
 
-MUTATORS = {"append", "extend", "clear", "pop", "insert", "remove", "update", "add", "discard", "put_nowait", "set", "cancel", "close"}
+MUTATORS = {"append", "extend", "clear", "pop", "insert", "remove", "update", "add", "discard", "put_nowait", "set", "cancel", "close", "set_result", "set_exception"}
 PURE_BUILTINS = {"len", "bytes", "bytearray", "int", "float", "str", "bool", "isinstance", "hasattr", "abs", "round", "max", "min", "list", "cast", "range", "next", "hash", "all", "any"}
 LOG_PREFIX = "_LOGGER."
 
